@@ -5,7 +5,7 @@
    exports every row, plus simulated histories of three lines typed by the same player.
 2. The Go harness types each line into the real play session handler of a player (family chosen
    by the client protocol) on a real proxy with real registered commands (one with a permission
-   requirement, one alias, one with an argument) and a scripted CommandExecuteEvent subscriber,
+   requirement, one alias, one with an argument, one under a mixed-case literal) and a scripted CommandExecuteEvent subscriber,
    and records which command handlers ran and what the backend connection received.
 3. TLC validates the recorded lines with CommandDispatch_Trace.tla (same Decision operator).
 """
@@ -53,18 +53,19 @@ def run(ctx):
     st = json.load(open(ctx.path("stats.json")))
     if st["hung"]:
         raise vlib.ToolError("%d lines never became idle" % st["hung"])
-    for k in ("vopen", "vperm", "vargs"):
-        if not st["execs"].get(k):
-            raise vlib.ToolError("vacuous: proxy command %s never ran" % k)
-    for k in ("legacy", "keyed", "scmd", "ucmd"):
-        if not st["backend"].get(k):
-            raise vlib.ToolError("vacuous: backend never received a %s packet" % k)
     recs = vlib.read_ndjson(ctx.path("trace.ndjson"))
     rejected, matched, tstates = ctx.validate_runs("CommandDispatch_Trace", recs)
     for rj in rejected:
         reset, bad = rj["run"][0], rj["bad"] or {}
         ctx.finding(classify(reset, bad), "command line handled differently from the decision table: %s (player %s)"
                     % (json.dumps(bad), json.dumps({k: reset.get(k) for k in ("fam", "perm", "proto", "fka")})), rj)
+    if not rejected:      # a run in which nothing was rejected must at least have seen every kind of outcome
+        for k in ("vopen", "vperm", "vargs", "vmix"):
+            if not st["execs"].get(k):
+                raise vlib.ToolError("vacuous: proxy command %s never ran" % k)
+        for k in ("legacy", "keyed", "scmd", "ucmd"):
+            if not st["backend"].get(k):
+                raise vlib.ToolError("vacuous: backend never received a %s packet" % k)
     cov = {
         "samples": st["samples"][:2] or cases[:1],
         "evaluations": st["lines"],
@@ -81,7 +82,7 @@ def run(ctx):
         "exhaustive": True,
     }
     return ctx.finish("model_checking", cov, [
-        "the table is exhaustive over the fixture's command universe (10 typed lines x 5 rewrite targets), not over all strings",
+        "the table is exhaustive over the fixture's command universe (12 typed lines x 5 rewrite targets), not over all strings",
         "client packets enter as decoded packets through clientPlaySessionHandler.HandlePacket",
     ])
 
@@ -101,7 +102,7 @@ def classify(reset, bad):
         want = ("/" + eff) if reset.get("fam") == "legacy" else eff
         if bad["back"][0]["txt"] != want:
             wrong_text = ":text=" + ("original" if bad["back"][0]["txt"].lstrip("/") == bad["line"] else "other")
-    reg = lambda l: l in ("vopen", "vperm", "valias", "vargs w", "vargs z")
+    reg = lambda l: l in ("vopen", "vperm", "valias", "vargs w", "vargs z", "VMix")
     eff = bad["to"] or bad["line"]
     return "%s:%s%s:%s:%s->%s%s" % (reset.get("fam"), res, ":signed" if bad["signed"] else "",
                                    "registered" if reg(eff) else "unregistered",
